@@ -396,4 +396,140 @@ theorem mergeYaml_never_panics : ∀ (n : Nat) (e o : Val) (p : TPath), depth o 
         | str _ => simp [ipamPools] at ho
         | map _ => simp [ipamPools] at ho
 
+/-! ### more fuel never changes a result -/
+
+def NP {α : Type} (r : Out α) : Prop := ∀ s, r ≠ .panic s
+
+/-- `g` gives the same answer as `f` wherever `f` does not panic -/
+def Agree3 (f g : Val → Val → TPath → Out Val) : Prop := ∀ e v q r, f e v q = r → NP r → g e v q = r
+def AgreeK (mk mk' : KVs → KVs → TPath → Out KVs) : Prop := ∀ a b p r, mk a b p = r → NP r → mk' a b p = r
+
+theorem np_of_bind {α β : Type} {x : Out α} {f : α → Out β} {r : Out β} (h : x.bind f = r) (hr : NP r) : NP x := by
+  intro s hx; subst hx; simp only [Out.bind] at h; exact hr s h.symm
+
+theorem mergeKVsWith_agree {f g : Val → Val → TPath → Out Val} (hfg : Agree3 f g) : AgreeK (mergeKVsWith f) (mergeKVsWith g) := by
+  intro a b
+  induction b generalizing a with
+  | nil => intro p r h _; simpa [mergeKVsWith] using h
+  | cons hd tl ih =>
+    obtain ⟨k, v⟩ := hd
+    intro p r h hr
+    simp only [mergeKVsWith] at h ⊢
+    cases hl : lookup k a with
+    | none => simp only [hl] at h ⊢; exact ih _ p r h hr
+    | some e =>
+      simp only [hl] at h ⊢
+      by_cases hx : hasXPrefix k = true
+      · simp only [hx, if_true] at h ⊢; exact ih _ p r h hr
+      · simp only [hx, Bool.false_eq_true, if_false] at h ⊢
+        cases hf : f e v (next p k) with
+        | ok m =>
+          rw [hfg _ _ _ _ hf (by intro s h'; cases h')]
+          simp only [hf, Out.bind] at h ⊢
+          exact ih _ p r h hr
+        | err e' =>
+          rw [hfg _ _ _ _ hf (by intro s h'; cases h')]
+          simpa [hf, Out.bind] using h
+        | panic s =>
+          simp only [hf, Out.bind] at h
+          exact absurd h.symm (hr s)
+
+theorem bind_mk_agree {mk mk' : KVs → KVs → TPath → Out KVs} (hk : AgreeK mk mk') {β : Type} (a b : KVs) (p : TPath)
+    (g : KVs → Out β) (r : Out β) (h : (mk a b p).bind g = r) (hr : NP r) : (mk' a b p).bind g = r := by
+  rw [hk a b p _ rfl (np_of_bind h hr)]; exact h
+
+theorem ipamFold_agree {mk mk' : KVs → KVs → TPath → Out KVs} (hk : AgreeK mk mk') (p : TPath) :
+    ∀ (lefts cfgs : List KVs) (r : Out (List KVs)), ipamFold mk cfgs lefts p = r → NP r → ipamFold mk' cfgs lefts p = r := by
+  intro lefts
+  induction lefts with
+  | nil => intro cfgs r h _; simpa [ipamFold] using h
+  | cons left rest ih =>
+    intro cfgs r h hr
+    simp only [ipamFold] at h ⊢
+    cases hi : ipamIndex (subnetOf left) cfgs 0 with
+    | none => simp only [hi] at h ⊢; exact ih _ r h hr
+    | some i =>
+      simp only [hi] at h ⊢
+      have hnp := np_of_bind h hr
+      rw [hk _ _ _ _ rfl hnp]
+      cases hm : mk (cfgs[i]?.getD []) left p with
+      | ok m => simp only [hm, Out.bind] at h ⊢; exact ih _ r h hr
+      | err e => simpa [hm, Out.bind] using h
+      | panic s => exact absurd hm (hnp s)
+
+theorem convMerge_agree {mk mk' : KVs → KVs → TPath → Out KVs} (hk : AgreeK mk mk') (conv : Val → Out KVs) (e o : Val) (p : TPath)
+    (r : Out Val) (h : convMerge mk conv e o p = r) (hr : NP r) : convMerge mk' conv e o p = r := by
+  simp only [convMerge] at h ⊢
+  cases ha : conv e with
+  | ok a =>
+    simp only [ha, Out.bind] at h ⊢
+    cases hb : conv o with
+    | ok b => simp only [hb] at h ⊢; exact bind_mk_agree hk a b p _ r h hr
+    | err e' => simpa [hb] using h
+    | panic s => simpa [hb] using h
+  | err e' => simpa [ha, Out.bind] using h
+  | panic s => simpa [ha, Out.bind] using h
+
+theorem mergeStep_agree {mk mk' : KVs → KVs → TPath → Out KVs} (hk : AgreeK mk mk') (e o : Val) (p : TPath)
+    (r : Out Val) (h : mergeStep mk e o p = r) (hr : NP r) : mergeStep mk' e o p = r := by
+  simp only [mergeStep] at h ⊢
+  cases hrule : ruleAt p with
+  | none =>
+    simp only [hrule, defaultStep] at h ⊢
+    cases o <;> cases e <;> first | exact h | exact bind_mk_agree hk _ _ p _ r h hr
+  | some rule =>
+    simp only [hrule] at h ⊢
+    cases rule with
+    | toSeq => exact h
+    | override => exact h
+    | extraHosts => exact h
+    | unknown => exact h
+    | ulimit =>
+      simp only [specialStep] at h ⊢
+      cases o with
+      | map kvs => exact bind_mk_agree hk kvs kvs p _ r h hr
+      | _ => exact h
+    | dependsOn => exact convMerge_agree hk _ e o p r h hr
+    | networks => exact convMerge_agree hk _ e o p r h hr
+    | build => exact convMerge_agree hk _ e o p r h hr
+    | logging =>
+      simp only [specialStep, loggingStep] at h ⊢
+      cases e <;> cases o <;> first
+        | exact h
+        | (simp only at h ⊢
+           split at h
+           · next hc => rw [if_pos hc]; exact bind_mk_agree hk _ _ p _ r h hr
+           · next hc => rw [if_neg hc]; exact h)
+    | ipam =>
+      simp only [specialStep, ipamStep] at h ⊢
+      cases hb : ipamPools e with
+      | ok base =>
+        simp only [hb, Out.bind] at h ⊢
+        cases ho : ipamPools o with
+        | ok other =>
+          simp only [ho] at h ⊢
+          have hnp := np_of_bind h hr
+          rw [ipamFold_agree hk p other base _ rfl hnp]; exact h
+        | err e' => simpa [ho] using h
+        | panic s => simpa [ho] using h
+      | err e' => simpa [hb, Out.bind] using h
+      | panic s => simpa [hb, Out.bind] using h
+
+/-- **fuel monotonicity**: one more unit of fuel never changes a result that is not the fuel panic -/
+theorem mergeYaml_succ_agree : ∀ n : Nat, Agree3 (mergeYaml n) (mergeYaml (n + 1)) := by
+  intro n
+  induction n with
+  | zero => intro e v q r h hr; simp only [mergeYaml] at h; exact absurd h.symm (hr "fuel")
+  | succ n ih =>
+    intro e v q r h hr
+    simp only [mergeYaml] at h ⊢
+    exact mergeStep_agree (mergeKVsWith_agree ih) e v q r h hr
+
+theorem mergeYaml_le_agree (n k : Nat) : Agree3 (mergeYaml n) (mergeYaml (n + k)) := by
+  induction k with
+  | zero => intro e v q r h _; exact h
+  | succ k ih =>
+    intro e v q r h hr
+    exact mergeYaml_succ_agree (n + k) e v q r (ih e v q r h hr) hr
+
 end CV.Merge
